@@ -131,11 +131,26 @@ def build_case(draw, tier):
 
 # ---------------------------------------------------------------- rectangular conversion, equals
 
+def layout(mat, how):
+    """the same matrix (same values, same shape) in another memory layout"""
+    if how == "F":
+        return np.asfortranarray(mat)
+    if how == "T":                      # transposed view of the transposed copy
+        return np.ascontiguousarray(mat.T).T
+    if how == "strided":                # every second row / column of a larger buffer
+        big = np.zeros((2 * mat.shape[0] + 1, 2 * mat.shape[1] + 1), dtype=mat.dtype)
+        big[1::2, 1::2] = mat
+        return big[1::2, 1::2]
+    if how == "reversed":
+        return np.ascontiguousarray(mat[::-1, ::-1])[::-1, ::-1]
+    return mat
+
+
 def obs_rect(case):
     from npstructures import RaggedArray
 
     def f():
-        mat = np.array(case["vals"], dtype=case["dt"]).reshape(case["r"], case["c"])
+        mat = layout(np.array(case["vals"], dtype=case["dt"]).reshape(case["r"], case["c"]), case.get("layout", "C"))
         ra = RaggedArray.from_numpy_array(mat)
         back = ra.to_numpy_array()
         return {"rows": ra.tolist(), "lens": [int(x) for x in ra.lengths], "n": len(ra), "dt": str(ra.dtype) if mat.size else None,
@@ -146,7 +161,7 @@ def obs_rect(case):
 def body_rect(case, ctx):
     r, c = case["r"], case["c"]
     mat = np.array(case["vals"], dtype=case["dt"]).reshape(r, c)
-    ctx.label("dt:" + case["dt"], "zero-rows" if r == 0 else "zero-cols" if c == 0 else "rect")
+    ctx.label("dt:" + case["dt"], "zero-rows" if r == 0 else "zero-cols" if c == 0 else "rect", "layout:" + case.get("layout", "C"))
     ctx.nt(r >= 2 or r == 0 or c == 0)
     exp = {"rows": mat.tolist(), "lens": [c] * r, "n": r, "dt": case["dt"] if mat.size else None,
            "back": norm(mat) if r else {"shape0": 0, "size": 0}}
@@ -163,7 +178,8 @@ def rect_case(draw, tier):
     r = draw(st.integers(0, 6))
     c = draw(st.integers(0, 6))
     dt = draw(st.sampled_from(gen.ALL_DT))
-    return {"r": r, "c": c, "dt": dt, "vals": draw(gen.flat_values(dt, r * c))}
+    return {"r": r, "c": c, "dt": dt, "vals": draw(gen.flat_values(dt, r * c)),
+            "layout": draw(st.sampled_from(["C", "C", "F", "T", "strided", "reversed"]))}
 
 
 def obs_to_numpy(case):
